@@ -143,7 +143,7 @@ func elemBits(f reflect.Value) uint64 {
 	case reflect.Int8, reflect.Int16, reflect.Int32, reflect.Int64:
 		return uint64(f.Int()) & mask(f)
 	case reflect.Float32:
-		return uint64(math.Float32bits(float32(f.Float())))
+		return uint64(math.Float32bits(f.Interface().(float32))) // no float64 round trip: it would quiet signalling NaNs
 	case reflect.Float64:
 		return math.Float64bits(f.Float())
 	}
@@ -177,7 +177,7 @@ func setElem(f reflect.Value, bits uint64) {
 	case reflect.Int64:
 		f.SetInt(int64(bits))
 	case reflect.Float32:
-		f.SetFloat(float64(math.Float32frombits(uint32(bits))))
+		f.Set(reflect.ValueOf(math.Float32frombits(uint32(bits))))
 	case reflect.Float64:
 		f.SetFloat(math.Float64frombits(bits))
 	default:
